@@ -30,6 +30,14 @@ if $applies; then
       if ( cd $demo && timeout 300 go run ./demo >/tmp/seeddemo-$name.log 2>&1 ); then r=pass; else r=fail; fi
       if [ $tree = /repo ]; then demo_clean=$r; else demo_patched=$r; fi
     done
+  elif ls $src/*_test.go >/dev/null 2>&1 && ! grep -q '^package lua' $src/*_test.go; then
+    # a test file of its own module (package demo) using the public API
+    for tree in /repo $wt; do
+      rm -rf $demo; mkdir -p $demo; cp $src/*_test.go $demo/; cp /repo/go.sum $demo/
+      printf 'module demo\n\ngo 1.23\n\nrequire github.com/yuin/gopher-lua v0.0.0\n\nreplace github.com/yuin/gopher-lua => %s\n' $tree > $demo/go.mod
+      if ( cd $demo && timeout 300 go test -vet=off -count=1 ./... >/tmp/seeddemo-$name.log 2>&1 ); then r=pass; else r=fail; fi
+      if [ $tree = /repo ]; then demo_clean=$r; else demo_patched=$r; fi
+    done
   elif ls $src/*_test.go >/dev/null 2>&1; then
     for tree in clean patched; do
       t=/tmp/seedwt2-$name; git -C /repo worktree remove --force $t >/dev/null 2>&1; git -C /repo worktree add -q $t HEAD
